@@ -86,6 +86,7 @@ def cases(rng, tier):
             if op == "delay_subscription" and c["sched"] == "test" and "sub2" not in c and rng.random() < 0.25:
                 c["inline"] = True          # subscribed without a scheduler argument: the mapper's empty() completes inline
             c["msgs"] = T.to_cold(msgs) if src == "cold" else msgs
+            T.gen_tz(rng, c)                   # absolute due times written in a non-UTC zone (same instant)
             if op in ("timestamp", "time_interval", "delay"):
                 T.gen_opsched(rng, c)          # operator-level scheduler (of the timeline) + a different subscribe-level scheduler
             if op == "delay_subscription" and c.get("inline") and rng.random() < 0.5:
@@ -109,7 +110,7 @@ def build(case, rc, sched, xs, hist):
 
     def when():
         if case["abs"]:
-            return T.abs_dt(case, case["at"]) if hist else T.utc(rc["at"])
+            return T.in_tz(case, T.abs_dt(case, case["at"]) if hist else T.utc(rc["at"]))
         return T.real_dur(case, case["at"], hist)
 
     if op == "timestamp":
@@ -254,6 +255,7 @@ def nontrivial(case, io):
 def bucket(case, io):
     yield from T.shape(case, io)
     yield f"{case['op']}:sched={case['sched']}"
+    yield f"{case['op']}:tz={case.get('tz')}"
     yield f"{case['op']}:opsched={bool(case.get('opsched'))}:bare={bool(case.get('bare'))}"
     yield f"{case['op']}:scale={case.get('scale', 1)}:td={bool(case.get('td'))}:wall={bool(case.get('wall'))}"
     yield f"{case['op']}:second-subscription={'sub2' in case}"
